@@ -532,6 +532,28 @@ func loadPool() ([]poolKey, error) {
 			}
 			pool = append(pool, poolKey{strings.TrimSuffix(filepath.Base(f), ".pem"), k})
 		}
+		// the same primes with the public exponent 257 (Shoup's scheme needs e prime and larger than l <= 30)
+		for _, bk := range append([]poolKey{}, pool...) {
+			if bk.name != "rsa-1024-0" && bk.name != "rsa-1025-0" && bk.name != "rsa-1024-safe-0" {
+				continue
+			}
+			one := big.NewInt(1)
+			p1 := new(big.Int).Sub(bk.key.Primes[0], one)
+			q1 := new(big.Int).Sub(bk.key.Primes[1], one)
+			lambda := new(big.Int).Mul(p1, q1)
+			lambda.Div(lambda, new(big.Int).GCD(nil, nil, p1, q1))
+			d := new(big.Int).ModInverse(big.NewInt(257), lambda)
+			if d == nil {
+				continue
+			}
+			k := &rsa.PrivateKey{PublicKey: rsa.PublicKey{N: bk.key.N, E: 257}, D: d, Primes: []*big.Int{bk.key.Primes[0], bk.key.Primes[1]}}
+			k.Precompute()
+			if err := k.Validate(); err != nil {
+				poolErr = fmt.Errorf("%s-e257: %v", bk.name, err)
+				return
+			}
+			pool = append(pool, poolKey{bk.name + "-e257", k})
+		}
 		if len(pool) == 0 {
 			poolErr = fmt.Errorf("no keys in %s", dir)
 		}
@@ -657,7 +679,6 @@ func (d *dealt) share(t vlib.TB, player int) (tss.SignShare, bool) {
 
 // combine checks one subset (player indices, in the given order); returns false when the case was abandoned.
 func (d *dealt) combine(t vlib.TB, subset []int, sub string) bool {
-	c := d.cfg
 	S := make([]tss.SignShare, len(subset))
 	for i, p := range subset {
 		s, ok := d.share(t, p)
@@ -666,6 +687,12 @@ func (d *dealt) combine(t vlib.TB, subset []int, sub string) bool {
 		}
 		S[i] = s
 	}
+	return d.finish(t, subset, S, sub)
+}
+
+// finish combines the given signature shares (of the players in subset, same order) and checks the result.
+func (d *dealt) finish(t vlib.TB, subset []int, S []tss.SignShare, sub string) bool {
+	c := d.cfg
 	vlib.Eval(sub)
 	var sig []byte
 	var err error
@@ -721,7 +748,9 @@ func (d *dealt) combine(t vlib.TB, subset []int, sub string) bool {
 		vlib.Class(sub, "blind=mixed")
 	}
 	vlib.Class(sub, fmt.Sprintf("cache=%v", c.cache))
-	if c.round == 2 {
+	if c.round == 3 {
+		vlib.NonTrivial(sub, "shares-decoded-into-one-reused-object", []byte(c.pk.name), []byte{byte(c.l), byte(c.k)}, []byte(fmt.Sprint(subset)), []byte(c.padding), c.msg, []byte(fmt.Sprint(c.blind, c.flipMask, c.dealSeed, c.hash, c.saltMode)))
+	} else if c.round == 2 {
 		cls := "second-message-same-keyshares"
 		if c.remarshal {
 			cls += "+remarshalled"
@@ -795,6 +824,74 @@ func (d *dealt) nextRound(t vlib.TB, c2 rsaCfg, players []int) (*dealt, bool) {
 		}
 	}
 	return prepare(t, c2, d.keys)
+}
+
+// reusedObjects: decode-into-a-used-object history. ONE KeyShare object and ONE SignShare object are
+// reused for all players of the subset: the encoding of player p's key share (taken from a cached deal,
+// from an uncached deal that has never signed, or from the live share that has already signed) is decoded
+// into the one KeyShare object, which then signs; the signature share is marshalled and decoded into the
+// one SignShare object. The combination must verify exactly as with fresh objects.
+func (d *dealt) reusedObjects(t vlib.TB, c3 rsaCfg, subset []int, variant []int, sub string) bool {
+	c3.pk, c3.l, c3.k, c3.cache, c3.dealSeed, c3.round = d.cfg.pk, d.cfg.l, d.cfg.k, d.cfg.cache, d.cfg.dealSeed, 3
+	d3, ok := prepare(t, c3, d.keys)
+	if !ok {
+		return false
+	}
+	var dealtKeys [2][]tss.KeyShare
+	for i, cache := range []bool{true, false} {
+		ks, err := tss.Deal(vlib.NewReader(c3.dealSeed), uint(c3.l), uint(c3.k), c3.pk.key, cache)
+		if err != nil {
+			vlib.Report(t, "C17/tssrsa/deal-error", fmt.Sprintf("%v: Deal: %v", c3, err))
+			return false
+		}
+		dealtKeys[i] = ks
+	}
+	obj := new(tss.KeyShare)
+	ssObj := new(tss.SignShare)
+	S := make([]tss.SignShare, len(subset))
+	for i, p := range subset {
+		var src *tss.KeyShare
+		switch variant[i] % 3 {
+		case 0:
+			src = &dealtKeys[0][p-1] // encoding carries the cached exponent
+		case 1:
+			src = &dealtKeys[1][p-1] // encoding without cached exponent
+		default:
+			src = &d.keys[p-1] // the live share (has signed before)
+		}
+		enc, err := src.MarshalBinary()
+		if err == nil {
+			err = obj.UnmarshalBinary(enc)
+		}
+		if err != nil {
+			vlib.Report(t, "C17/tssrsa/keyshare-marshal-error", fmt.Sprintf("%v: player %d variant %d: %v", c3, p, variant[i]%3, err))
+			return false
+		}
+		if int(obj.Index) != p {
+			vlib.Report(t, "C17/tssrsa/keyshare-fields", fmt.Sprintf("%v: decoded key share of player %d has Index %d", c3, p, obj.Index))
+			return false
+		}
+		var s tss.SignShare
+		if c3.blinded(p) {
+			s, err = obj.Sign(d3.rd, d3.pub, d3.padded, c3.parallel)
+		} else {
+			s, err = obj.Sign(nil, d3.pub, d3.padded, c3.parallel)
+		}
+		if err != nil {
+			vlib.Report(t, "C17/tssrsa/sign-error", fmt.Sprintf("%v: player %d Sign (reused object): %v", c3, p, err))
+			return false
+		}
+		sb, err := s.MarshalBinary()
+		if err == nil {
+			err = ssObj.UnmarshalBinary(sb)
+		}
+		if err != nil {
+			vlib.Report(t, "C17/tssrsa/signshare-marshal-error", fmt.Sprintf("%v: player %d: %v", c3, p, err))
+			return false
+		}
+		S[i] = *ssObj
+	}
+	return d3.finish(t, subset, S, sub)
 }
 
 func drawCfg(t *rapid.T, ks []poolKey, l, k int) rsaCfg {
@@ -916,6 +1013,16 @@ func TestC17ThresholdRSA(t *testing.T) {
 			return
 		}
 		if !d2.combine(t, subset2, "tssrsa/second-message") {
+			return
+		}
+		// third message: key shares and signature shares decoded into ONE reused object each
+		c3 := drawCfg(t, []poolKey{c.pk}, l, k)
+		c3.msg = append(append([]byte{}, c3.msg...), 0x03)
+		variant := make([]int, len(subset2))
+		for i := range variant {
+			variant[i] = rapid.IntRange(0, 2).Draw(t, "encVariant")
+		}
+		if !d.reusedObjects(t, c3, subset2, variant, "tssrsa/reused-objects") {
 			return
 		}
 	})
